@@ -18,19 +18,19 @@ models = {
  "C04": ("M_Crop.v (reuses C14's wrapper evaluator)", "probe WCS with exact edges, TAN / rotated / tan_split families, lookup-table extra coords on 1-3-D cubes, None per independent group and all-None, float values in two unit spellings handed over as float / numpy scalar / 0-d array, Quantities, high-level objects, malformed requests; never-evaluated FITS WCS; meshed SkyCoord extra coords; per-point None layouts incl. points with no coordinate; cubes that are results of a rebin; the result cropped again with the same points (primary wcs, keepdims) must be the result itself (C04_recrop)"),
  "C05": ("M_WorldCoords.v (proofs in P_WorldCoords.v, P_WorldCoordsEC.v)", "every correlation structure up to 3x3 (+ sampled 4x4), wcs / extra_coords / combined_wcs, corners, grouped objects, ask / scribble / add / ask; extra coords coupled to several cube axes in any axis order: WCS-backed ExtraCoords with any correlation matrix and mapping (in the model: world_array_ec, the transposition `relabel`), 2-D per-pixel SkyCoord tables (direct oracle); gWCS primary WCS not generated"),
  "C06": ("M_Wrappers.v (compound), P_Combined.v", "probe WCS with 0-4 linear tables, plain / integer-sliced / rebinned / integer-sliced then rebinned, inspect-before-last-add; extra coords given as an invertible WCS with known shapes; the combined WCS's recorded shape"),
- "C07": ("M_Store.v", "random histories <= 6 steps on cubes / sequences / collections; sharing measured per cube-level step; snapshots of every object after every step; NaN payloads with nan-operations; reprojection of already sliced / rebinned cubes"),
+ "C07": ("M_Store.v", "random histories <= 6 steps on cubes / sequences / collections; sharing measured per cube-level step; snapshots of every object after every step; NaN payloads with nan-operations; reprojection of already sliced / rebinned cubes; C07_shared_cell: a Share field of a derived object is the source's own cell"),
  "C08": ("M_Rebin.v", "all bin shapes dividing shapes up to 4-D, operations mean / sum / min / max / custom, masks, handle_mask, dask (with dask or numpy masks; the result must stay lazy), new_unit; the mask switch as bool / numpy bool / int; pixel Quantities in pix or a pixel-convertible unit; C08_partition / C08_count: the blocks partition the input (no element used twice or lost)"),
- "C09": ("M_Resample.v", "lin / TAN / rotated WCS, lookup-table extra coords incl. SkyCoord in several units and Time, multi-step rebin; one coordinate spanning several axes in any axis order (2-D per-pixel SkyCoord table, two-table Quantity coordinate, WCS-backed ExtraCoords with any mapping) by the direct oracle, with two known findings (q2-grid-shapes, sky2-length1)"),
+ "C09": ("M_Resample.v", "lin / TAN / rotated WCS, lookup-table extra coords incl. SkyCoord in several units and Time, multi-step rebin; one coordinate spanning several axes in any axis order (2-D per-pixel SkyCoord table, two-table Quantity coordinate, WCS-backed ExtraCoords with any mapping) by the direct oracle, with two known findings (q2-grid-shapes, sky2-length1); a meshed SkyCoord (mesh=True) on two cube axes of plain / sliced / rebinned sources (both axes treated alike)"),
  "C10": ("M_Arith.v", "see MANIFEST; operands also as numpy unsigned / signed integers; global coords of result and source edited independently; uncertainties carrying a unit different from the cube's are not generated"),
  "C11": ("M_Sequence.v", "exhaustive small index domains; sequences of ragged cubes; Ellipsis alone (tuple and bare); numpy integers; the common axis also in its negative spelling; every second sequence is asked about itself before each step; out-of-range explode axes are unspecified and not judged"),
- "C12": ("M_IndexAsCube.v", "exhaustive: all length vectors up to 3 (4) cubes x length 3 (4), every int / slice item of both signs; 2-4-D cubes with ints on the leading axes; tuples that stop before the common axis; the result is indexed as a cube once more"),
+ "C12": ("M_IndexAsCube.v", "exhaustive: all length vectors up to 3 (4) cubes x length 3 (4), every int / slice item of both signs; 2-4-D cubes with ints on the leading axes; tuples that stop before the common axis; the result is indexed as a cube once more; every third sequence held and served another line-up of cubes before seq.data was edited in place"),
  "C13": ("M_Collection.v (proofs in P_Collection.v, P_CollectionInv.v)", "edit histories (slice, keys, pop, update, del, refused operations) on collections with 0-4 aligned axes in any per-member order; every collection an edit came from is re-observed; numpy integers; members that are NDCubeSequences (axis 0 = the sequence axis, aligned or not; an integer there turns the member into a cube); slices that would leave an empty sequence are unspecified and not judged"),
- "C14": ("M_Wrappers.v", "wrapper expressions of depth <= 3 over probe / lin WCS with exact rational evaluation (wexpr evaluator); scalar and integer-typed factor / offset arguments; compound members that are themselves compounds; orders as list / tuple / array / iterator; parameters the caller changes after construction; array world inputs with one inconsistent element; inner WCS with fewer pixel than world dimensions"),
+ "C14": ("M_Wrappers.v", "wrapper expressions of depth <= 3 over probe / lin WCS with exact rational evaluation (wexpr evaluator); scalar and integer-typed factor / offset arguments; compound members that are themselves compounds; orders as list / tuple / array / iterator; parameters the caller changes after construction; array world inputs with one inconsistent element; inner WCS with fewer pixel than world dimensions; C14_resample_compose: nested resampling wrappers equal one with factor f2*f1 and offset o2*f1+o1"),
  "C15": ("M_Unwrap.v", "chains of slices and resamplings over FITS WCS with PC or CD matrices; numpy integers in raw slice chains; raw negative items excluded (C01 normalises them before they reach the WCS)"),
- "C16": ("M_RebinUnc.v", "StdDev / Variance / InverseVariance, sum / mean / prod / nan-variants, masks, ignores-mask; NaN data together with operation_ignores_mask: either consistent reading is accepted (NaN members out of sum and divisor, or in both), a mixture is not; the mask switch as bool / numpy bool / int; the user's propagation function as function / partial / bound method / callable object, which must have been called"),
+ "C16": ("M_RebinUnc.v", "StdDev / Variance / InverseVariance, sum / mean / prod / nan-variants, masks, ignores-mask; NaN data together with operation_ignores_mask: either consistent reading is accepted (NaN members out of sum and divisor, or in both), a mixture is not; the mask switch as bool / numpy bool / int; the user's propagation function as function / partial / bound method / callable object, which must have been called; C16_order_independent: the value does not depend on which member of a block comes first"),
  "C17": ("M_SeqCoords.v (+ M_WorldCoords.v, M_IndexAsCube.v)", "see MANIFEST; cubes of one sequence share one coordinate structure (1-D tables; multi-table coordinates are C02's); tables dropped by slicing and cubes that went through arithmetic, with the expected global names stated independently"),
  "C18": ("M_SeqCrop.v (+ M_Crop.v)", "see MANIFEST; extra-coords wcses by the direct oracle only; wcses as a list of attribute names; cubes sharing one WCS object; per-point None layouts; all points in one pixel; an independent statement of the box; the result cropped again with the same arguments; C18_tight: every bound of the common box is a bound of some cube's own box"),
- "C19": ("M_Lookup.v (+ M_Resample.v)", "see MANIFEST; names / types / units and 2-D SkyCoord tables by the direct oracle only; a 'units' probe (tables in m / km / cm, numpy-integer items); resampling leaves its source unchanged and is repeatable; two-axis coordinates in either axis order"),
+ "C19": ("M_Lookup.v (+ M_Resample.v)", "see MANIFEST; names / types / units and 2-D SkyCoord tables by the direct oracle only; a 'units' probe (tables in m / km / cm, numpy-integer items); resampling leaves its source unchanged and is repeatable; two-axis coordinates in either axis order; ExtraCoords.resample with whole factors as ints / integer arrays and fractional offsets, tuple / array arguments"),
  "C20": ("M_Reproject.v", "see MANIFEST; adaptive algorithm: refusals, shape and attributes only; int64 / float32 payloads; shape_out as tuple / list / array; the footprint flag as bool / numpy bool / int; the cube's own WCS as target; WCS objects and global coords of the source untouched"),
 }
 missed = [n for n, m in seeds.items() if 'missed' in m.get('history', '') or 'only through' in m.get('history', '')]
@@ -79,9 +79,9 @@ A("forms, inputs that are themselves results, or coinciding circumstances) were 
 A("only the property text and a scratch worktree, confirmed by me in that worktree (demo passes clean / fails patched, pinned")
 A("suite's stable set still passes), stored under `seeded/<id>-<k>/` and run against the check with `tools/try_seed.sh` (apply")
 A(f"to /repo, check, `git checkout -- .`).  All {len(seeds)} are detected by the current checks (`tools/rerun_seeds.py` re-runs them")
-A("all; result in `seeded/STATUS.json`); two of them are caught by another property's check (`meta.json` names it in")
+A("all; result in `seeded/STATUS.json`); three of them are caught by another property's check (`meta.json` names it in")
 A("`detected_by`): C06-11 leaves every clause of C06 true and is caught by the C09 check, C17-14 needs a multi-table extra")
-A("coordinate, which the C17 generator does not attach, and is caught by the C02 check.  One fourth-round change for C17 was")
+A("coordinate, which the C17 generator does not attach, and is caught by the C02 check; C18-17 sits in the cube-level\n`_get_crop_by_values_item` (units of a never-evaluated FITS WCS) and is caught by the C04 check.  One fourth-round change for C17 was")
 A("neutralised by a repair made meanwhile (`extra_coords.add` now turns numpy-integer axes into ints) and is not stored.")
 A(f"{len(missed)} were missed (or caught only through the model) by the first version of")
 A("their check and led to the strengthening noted below; patches that no longer applied after a later repair of the same")
@@ -106,7 +106,9 @@ A("a cache copied into the result; `poke()` now does this in nine modules); payl
 A("'wrong in the same multiset' inputs (C13-8: right lengths on the wrong aligned axes); degenerate extents on every axis at")
 A("once (C18-8); index tuples that stop before the interesting axis (C12-9); ndcube's own wrappers as the PRIMARY wcs with")
 A("the expected correlation matrix stated from the construction, never asked of the wrapper (C01-13/14); a sequence object")
-A("that held and served another line-up of cubes before its `data` list was edited in place (C12-13: stale per-list cache).\n")
+A("that held and served another line-up of cubes before its `data` list was edited in place (C12-13: stale per-list cache);")
+A("whole factors as Python ints / integer arrays next to fractional offsets (C19-17), numpy bools as switches (C04-17), a meshed")
+A("SkyCoord on two axes of an already sliced cube (C09-17).\n")
 A(f"### 0.4 Genuine defects repaired in /repo (`fix:` commits; the pinned suite passes 174/174 after each)\n")
 for x in kf['fixed']:
     A("* " + x[len('fixed: '):])
@@ -142,6 +144,10 @@ A("  tables, SkyCoord in a common unit; C03 rot family restricted to 2-D, angles
 A("  for identical / whole-pixel-shifted targets (the exact algorithm averages on rescaled grids), adaptive not value-checked;")
 A("  C19 length-1 tables probed at their pixel or at least half a pixel away, Time tolerance 2 us (MJD doubles), world values")
 A("  for Time computed through the table's own float arithmetic; C07 an operation that returns the object itself derives nothing.")
+A("* The C04 'crop the result again' oracle (added with C04_recrop) first ran through extra_coords / combined_wcs too and alarmed")
+A("  with ValueError on the unchanged tree: a point within half a pixel beyond the region's last element lies past the end of")
+A("  the cropped lookup table, which has no values there (C19_outside) - the property does not promise idempotence through")
+A("  tables; the oracle is restricted to the primary wcs, where C04_recrop applies.")
 A("* Harness bugs that looked like violations: C18 None-group mapping for identity blocks; C19 resampled tables matched by")
 A("  position instead of by name; C10 inverse variances divided by non-powers of two (inexact floats); C20 TAN 'other types'")
 A("  target built an invalid WCS; C09 Time tolerance not applied; C13 (thorough tier only) histories continued on an empty")
